@@ -840,11 +840,15 @@ PROBES = [
 RULE = (
     "one case = one seeded history of set / __setitem__ / set_lru(list|serialised str) calls by 1-3 writer clients on one "
     "trie of a seeded class (4 classes x suffix_aware x the variant's options), with readers (match, match_lru, len), live "
-    "iterator tasks and faults interleaved by the schedule PRNG, over a per-run universe of 12-80 URLs (scheme x auth x "
-    "host chain x port x path chain x query x fragment, incl. spellings the variant merges). After every mutating event "
-    "every universe URL is matched and compared with longest-prefix lookup in a dict model keyed by cleaned stems, and all "
-    "URLs the variant's URL-level function maps to one string must agree (same-key law); len and iteration are compared "
-    "too. distinct_nontrivial = distinct non-empty abstract model states (class + key->value map) reached."
+    "iterator tasks, other trie instances of other classes/options living in the same process, and faults (set() of a URL "
+    "the tokeniser rejects, set_lru with an unhashable stem, each possibly retried at once; cancellation at any step) "
+    "interleaved by the schedule PRNG, over a per-run universe of 12-80 URLs (scheme incl. none and '//', auth, host chain "
+    "incl. bare suffixes / IDN / trailing dot, port incl. empty, path chain incl. literal pipes, query, fragment, and the "
+    "spellings the variant merges). After mutating events the universe URLs are matched and compared with longest-prefix "
+    "lookup in a dict model keyed by cleaned stems; all URLs the variant's URL-level function maps to one string must agree "
+    "(same-key law); for the plain LRUTrie a URL lying by construction at or under a stored URL must find something "
+    "(hierarchy law, independent of the stem functions); len and iteration are compared too. distinct_nontrivial = "
+    "distinct non-empty abstract model states (class + key->value map) reached."
 )
 ASSUMPTIONS = [
     "the model's keys are computed with the repository's module-level stem functions (lru_stems etc.): a stem bug that is consistent between set and match is invisible here (it belongs to C07/C12/C13); the same-key law against the URL-level functions is the independent cross-check",
